@@ -24,9 +24,30 @@ pub fn reference(msg: &[u8], n: usize) -> (Vec<u32>, Vec<u32>) {
     (out, seen)
 }
 
+/// (salt, message) pairs with extreme rejection counts at the start of the stream (corpus/hash_extremes.txt)
+pub fn extremes() -> Vec<(Vec<u8>, Vec<u8>)> {
+    let path = format!("{}/../corpus/hash_extremes.txt", env!("CARGO_MANIFEST_DIR"));
+    let mut out = vec![];
+    if let Ok(s) = std::fs::read_to_string(&path) {
+        for l in s.lines() {
+            let t: Vec<&str> = l.split_whitespace().collect();
+            if t.len() >= 2 && !l.starts_with('#') {
+                out.push((unhex(t[0]), unhex(t[1])));
+            }
+        }
+    }
+    out
+}
+
 pub fn generate(tier: &str, rng: &mut Prng) -> Vec<Case> {
     let mut ops = vec![];
     let thorough = tier == "thorough";
+    for (salt, msg) in extremes() {
+        let mut m = salt.clone();
+        m.extend_from_slice(&msg);
+        ops.push(Case::new(format!("hash_to_point 512 {}", hex(&m))));
+        ops.push(Case::new(format!("hash_to_point 1024 {}", hex(&m))));
+    }
     let mut push = |m: &[u8], ops: &mut Vec<Case>| {
         ops.push(Case::new(format!("hash_to_point 512 {}", hex(m))));
         ops.push(Case::new(format!("hash_to_point 1024 {}", hex(m))));
